@@ -23,7 +23,7 @@ TRUSTED_BASE = ["Coq 8.16.1 kernel (coqc); no axioms (Print Assumptions: closed 
                 "IEEE rounding is not modelled (theorems over an exact real field)"]
 ASSUMPTIONS = ["Eigen inverse()/determinant() behave as matrix inverse/determinant up to rounding (checked against the model's Gauss-Jordan on every case)"]
 
-COUNTS = {"quick": 300, "thorough": 20000}
+COUNTS = {"quick": 1000, "thorough": 20000}
 
 
 def one_step(rng, n, comps, m=None):
@@ -38,8 +38,15 @@ def one_step(rng, n, comps, m=None):
     y = gen.matrix(rng, m, 1, 5.0)
     w = np.array([rng.random() + 0.1 for _ in range(comps)]); w = np.log(w / w.sum())
     condS = max(np.linalg.cond(H @ P @ H.T + R) for P in covs)
+    # physical units. The problem is homogeneous: with the state measured in units of L (x -> L x: means L, P L^2, y L,
+    # R L^2) the posterior mean scales by L and the covariance by L^2; with the measurement in units of e (y -> e y,
+    # H -> e H, R -> e^2 R) the posterior does not change; the likelihood scales by (L e)^-m.  Conditioning is unchanged,
+    # so the calibrated tolerances are carried over by the same factors (L for means, L^2 for covariances).
+    L = 10.0 ** rng.uniform(-5, 4) if rng.random() < 0.4 else 1.0
+    e = 10.0 ** rng.uniform(-3, 3) if rng.random() < 0.3 else 1.0
+    H = H * e; R = R * (e * L) ** 2; y = y * (e * L); means = means * L; covs = [P * L * L for P in covs]
     return dict(H=H, R=R, y=y, means=means, covs=np.hstack(covs), weights=w.reshape(-1, 1), hkind=hkind,
-                cond=max(cond, condR, condS), rankH=int(np.linalg.matrix_rank(H)), n=n, m=m, comps=comps)
+                cond=max(cond, condR, condS), rankH=int(np.linalg.matrix_rank(H)), n=n, m=m, comps=comps, L=L, e=e)
 
 
 def generate(rng, tier):
@@ -56,7 +63,7 @@ def generate(rng, tier):
             if r < 0.6:      # same shapes, everything else different
                 st.append(one_step(rng, n, comps, st[0]["m"]))
             elif r < 0.75:   # only the measurement changes
-                d = dict(st[-1]); d["y"] = gen.matrix(rng, d["m"], 1, 5.0); st.append(d)
+                d = dict(st[-1]); d["y"] = gen.matrix(rng, d["m"], 1, 5.0) * (d["e"] * d["L"]); st.append(d)
             elif r < 0.9:    # other measurement size
                 st.append(one_step(rng, n, comps))
             else:            # other component count and state size
@@ -66,7 +73,8 @@ def generate(rng, tier):
         c = caseio.Case(k, "kf_correct", {"steps": steps, "extra": extra, "alias": alias, "n": st[0]["n"], "m": st[0]["m"], "comps": st[0]["comps"], "hkind": st[0]["hkind"],
                                           "cond": "%.3g" % max(x["cond"] for x in st), "rankH": st[0]["rankH"],
                                           "shapes": ",".join("%d:%d:%d" % (x["n"], x["m"], x["comps"]) for x in st),
-                                          "conds": ",".join("%.3g" % x["cond"] for x in st)})
+                                          "conds": ",".join("%.3g" % x["cond"] for x in st),
+                                          "units": ",".join("%r:%r" % (x["L"], x["e"]) for x in st)})
         for t, x in enumerate(st):
             s = "_s%d" % t
             c.mat("H" + s, x["H"]).mat("R" + s, x["R"]).mat("y" + s, x["y"]).mat("means" + s, x["means"]).mat("covs" + s, x["covs"]).mat("weights" + s, x["weights"])
@@ -81,6 +89,13 @@ def nontrivial(c):
     return None
 
 
+def step_units(c):
+    """(L, e) per step: unit of the state and of the measurement (1, 1 for cases written before units were drawn)."""
+    if "units" not in c.meta:
+        return [(1.0, 1.0)] * len(c.meta["shapes"].split(","))
+    return [tuple(float(v) for v in x.split(":")) for x in c.meta["units"].split(",")]
+
+
 def step_shapes(c):
     return [tuple(int(v) for v in x.split(":")) for x in c.meta["shapes"].split(",")]
 
@@ -92,14 +107,16 @@ def compare(c, impl, model):
     about 200x / 400x over that and are 4 orders tighter than a blanket 1e-9*cond."""
     d = []
     conds = [float(x) for x in c.meta["conds"].split(",")]
+    units = step_units(c)
     for t, (n, m, comps) in enumerate(step_shapes(c)):
         s = "_s%d" % t
         if impl.get("components" + s) != model.get("components" + s):
             d.append("components%s: impl=%s model=%s" % (s, impl.get("components" + s), model.get("components" + s)))
-        pmag = max(1.0, float(np.max(np.abs(c.get("covs" + s)))), float(np.max(np.abs(c.get("means" + s)))))
-        tol = 1e-13 + 5e-14 * conds[t] * pmag
+        L = units[t][0]
+        pmag = max(1.0, float(np.max(np.abs(c.get("covs" + s)))) / (L * L), float(np.max(np.abs(c.get("means" + s)))) / L)
+        tol1 = 1e-13 + 5e-14 * conds[t] * pmag          # in units of the state
         for i in range(comps):
-            for f in ("mean%d%s" % (i, s), "cov%d%s" % (i, s)):
+            for f, tol in (("mean%d%s" % (i, s), tol1 * L), ("cov%d%s" % (i, s), tol1 * L * L)):
                 a, b = impl.get(f), model.get(f)
                 if a is None or b is None or not caseio.close(a, b, tol, 0):
                     d.append("%s: max|impl-model|=%.3g (tol %.3g)" % (f, caseio.maxdiff(a, b) if a is not None and b is not None else float("nan"), tol))
@@ -113,8 +130,10 @@ def oracle(c, impl, model):
     """The property clauses evaluated on the implementation's output, for every step of the sequence."""
     v = []
     conds = [float(x) for x in c.meta["conds"].split(",")]
+    units = step_units(c)
     for t, (n, m, comps) in enumerate(step_shapes(c)):
         s = "_s%d" % t
+        L = units[t][0]
         tag = "" if t == 0 else ":later-call-on-same-object"
         cond = conds[t]
         covs = c.get("covs" + s)
@@ -131,13 +150,13 @@ def oracle(c, impl, model):
         for i in range(comps):
             P = covs[:, i * n:(i + 1) * n]
             Pc, mc, lik = impl.get("cov%d%s" % (i, s)), impl.get("mean%d%s" % (i, s)), impl.get("lik%d%s" % (i, s))
-            scale = max(1.0, float(np.max(np.abs(P))))
+            scale = max(L * L, float(np.max(np.abs(P))))
             tol = 1e-7 * cond * scale
             if model is not None:
                 sm, sc_, sl = model.get("spec_mean%d%s" % (i, s)), model.get("spec_cov%d%s" % (i, s)), model.get("spec_lik%d%s" % (i, s))
                 if not caseio.close(Pc, sc_, tol, 0):
                     v.append(("C01:cov-not-information-form" + tag, "step %d component %d: max diff %.3g > %.3g" % (t, i, caseio.maxdiff(Pc, sc_), tol)))
-                mt = 1e-7 * cond * max(1.0, float(np.max(np.abs(sm))))
+                mt = 1e-7 * cond * max(L, float(np.max(np.abs(sm))))
                 if not caseio.close(mc, sm, mt, 0):
                     v.append(("C01:mean-not-conjugate" + tag, "step %d component %d: max diff %.3g > %.3g" % (t, i, caseio.maxdiff(mc, sm), mt)))
                 if not caseio.close(lik, sl, 1e-300, 1e-7 * cond):
